@@ -28,12 +28,21 @@ def budget(tier):
 def gen_case(rng, tier, index):
     hist = dsgen.gen_history(rng, n_sessions=rng.randrange(1, 6),
                              formats=C.tfrec_share(tier),
-                             meta_modes=("none", "none", "some"))
+                             meta_modes=("none", "none", "some"),
+                             bad_rate=rng.choice([0, 0, 0.15]),
+                             # only kinds every format rejects outright; what
+                             # an *accepted* odd write does is C18's business
+                             bad_kinds=("shape", "rank", "missing",
+                                        "unsafe_dtype_fb", "extra_tfrec"))
     return C.base_case(rng, hist)
 
 
 def run_case(case):
-    return esess.run_history(case, ["C04"])
+    res = esess.run_history(case, ["C04"])
+    res.setdefault("faults", {})["rejected_writes_in_history"] = sum(
+        1 for s in case["hist"]["sessions"] for w in s.get("writes", [])
+        if w.get("bad"))
+    return res
 
 
 shrink = esess.shrink_history
@@ -45,7 +54,7 @@ def reach(agg):
     if p.get("history_ran_to_completion", 0) * 2 < agg["evaluations"]:
         need.append("fewer than half of the histories ran to completion")
     for name in ("session_root", "session_sub", "session_multi",
-                 "multi_under_simpool", "sub_depth_2", "sub_depth_3"):
+                 "multi_under_simpool", "rejected_write_caught", "sub_depth_2", "sub_depth_3"):
         if not p.get(name):
             need.append(f"probe {name} never hit")
     return need
